@@ -545,6 +545,17 @@ class Interp:
         if isinstance(e, ast.Name):
             return self._name(e.id, env)
         if isinstance(e, ast.Attribute):
+            if isinstance(e.value, ast.Call) and isinstance(e.value.func, ast.Name) and e.value.func.id == "super" and not e.value.args:
+                # `super().attr`: the next definition after the enclosing class in the instance's MRO
+                found, selfv = env.lookup("self")
+                cur: Env | None = env
+                while cur is not None and cur.cls is None:
+                    cur = cur.parent
+                if found and isinstance(selfv, Obj) and cur is not None:
+                    ms = [m for m in self.prog.lookup_method(selfv.cls or cur.cls, e.attr, after=cur.cls) if not m.is_setter]
+                    if ms:
+                        return self._invoke(ms[0], [selfv], {}, None) if ms[0].is_property else Bound(ms[0], selfv)
+                raise AnalysisError(f"super() attribute not modelled: {unparse(e)}")
             return self._getattr(self.eval(e.value, env), e.attr, env)
         if isinstance(e, ast.BoolOp):
             if isinstance(e.op, ast.And):
